@@ -20,6 +20,7 @@ type Machine struct {
 	fninfo     map[*ssa.Function]*fnInfo
 	journal    []undoRec
 	journaling bool
+	raceActive bool // verifrt.RaceDetect is on for the current path
 	path       *Path
 	initPath   *Path // dummy path used while running package inits (concrete only)
 
